@@ -467,6 +467,29 @@ class S10(Scenario):
         return [mk("Alice"), mk("Bob")]
 
 
+class S11(Scenario):
+    """both threads render the SAME compiled Template (one ComponentNode) with different contexts; the component reads its
+    input through `self.input` / `self.id`: nothing about one render may be kept on the shared node or class"""
+    name = "S11_same_template_reads_self_input"
+    bound_quick = 2
+    bound_thorough = 3
+    extra_attrs = ("_metadata_stack", "_metadata_local", "_component", "outer_context")
+    extra_funcs = ("_with_metadata",)
+
+    def __init__(self):
+        from django.template import Template
+
+        def gcd(self, who=None, **kw):
+            return {"who": self.input.kwargs["who"], "my": self.id, "outer": self.outer_context.get("who") if self.outer_context is not None else "-"}
+
+        _mk("s11", "<p>{{ who }}/{{ outer }}[{{ my }}]</p>", gcd)
+        self.t = Template("{% component 's11' who=who / %}")
+
+    def setup(self):
+        self.reset_common()
+        return [_render_tpl(self.t, {"who": "Alice"}), _render_tpl(self.t, {"who": "Bob"})]
+
+
 class S5(Scenario):
     """first use of the lazily created caches and of the component-tag subclass registry"""
     name = "S5_lazy_singletons"
@@ -598,7 +621,7 @@ def _norm_doc(html):
 
 
 # the cold-start scenarios come first: their executions are forked from this process, which must not have rendered anything yet
-SCENARIOS = {c.name: c for c in (L1a, L1b, S1, S1c, S2, S3, S3b, S3c, S4, S4b, S5, S6, S7, S8, S9, S10, O1, O2, O3)}
+SCENARIOS = {c.name: c for c in (L1a, L1b, S1, S1c, S2, S3, S3b, S3c, S4, S4b, S5, S6, S7, S8, S9, S10, S11, O1, O2, O3)}
 _SC = {}
 _SET = {}
 
